@@ -43,6 +43,16 @@ def gen_project(rng):
         tags = [("D", i == 1)] if dup and i < 2 else []
         text, pl, meta = gen_file(rng, lang, f"f{i}x", dup_tags=tags)
         files[rel], plants[rel], metas[rel] = text, pl, meta
+    if rng.random() < 0.3:
+        # two Python files that do not parse (a syntax error at the very end) but share a block: the text-based duplicate-code
+        # rule still has to point at the block's real lines; the AST-based rules have nothing to say about such files
+        for j in (0, 1):
+            text, pl, meta = gen_file(rng, "py", f"b{j}x", n_units=rng.randint(1, 3), dup_tags=[("B", j == 1)])
+            rel = f"src/broken_{j}.py"
+            eol = "\r\n" if meta["eol"] == "crlf" else "\n"
+            files[rel] = text + ("" if text.endswith(("\n", "\r")) else eol) + "def todo(:" + eol
+            plants[rel] = [p_ for p_ in pl if p_.rule == "dry"]
+            metas[rel] = meta
     return files, plants, metas
 
 
@@ -120,6 +130,12 @@ def number_spellings_on_line(line: str):
     return out
 
 
+def src_lines(text: str):
+    """lines as compilers and editors count them: only LF / CR / CRLF end a line (str.splitlines would also break at form feed,
+    NEL, U+2028 ...)"""
+    return [b.decode("utf-8", "replace") for b in text.encode("utf-8").splitlines()]
+
+
 def check_quotes(v, line_text):
     """wherever the message quotes a name or literal taken from the source, it occurs on the reported line"""
     for rx, kind in QUOTED:
@@ -182,7 +198,7 @@ def run(tier: str, seed: int, st: core.ProofStatus) -> core.Result:
             data = files[rel].encode("utf-8")
             lines_b = data.split(b"\n")
             m = drv.call({"prop": PROP, "op": "points", "text": list(data), "positions": [[max(v["line"], 0), max(v["column"], 0)] for v in vs]})
-            n_lines = len(files[rel].splitlines())
+            n_lines = len(src_lines(files[rel]))
             if m["lineCount"] != len(data.splitlines()) and b"\r" not in data.replace(b"\r\n", b""):
                 problems.append(f"model line count {m['lineCount']} vs {len(data.splitlines())} for {rel}")
             for v, pm in zip(vs, m["positions"]):
@@ -218,12 +234,12 @@ def run(tier: str, seed: int, st: core.ProofStatus) -> core.Result:
                     wrong = [v for v in named if v["line"] != pl.line]
                     if wrong:
                         problems.append(f"{wrong[0]['rule']} for {pl.token!r} reported at {rel}:{wrong[0]['line']}, the construct is at line {pl.line}: "
-                                        f"{files[rel].splitlines()[pl.line - 1].strip()[:60]!r}")
+                                        f"{src_lines(files[rel])[pl.line - 1].strip()[:60]!r}")
                         continue
                 else:
                     if not any(v["line"] == pl.line for v in cands):
                         near = sorted(v["line"] for v in cands)
-                        problems.append(f"planted {pl.kind} construct at {rel}:{pl.line} ({files[rel].splitlines()[pl.line - 1].strip()[:50]!r}) has no {pl.rule} violation on "
+                        problems.append(f"planted {pl.kind} construct at {rel}:{pl.line} ({src_lines(files[rel])[pl.line - 1].strip()[:50]!r}) has no {pl.rule} violation on "
                                         f"that line (reported lines: {near[:8]})")
                         continue
                 hit_in_file += 1
